@@ -161,7 +161,7 @@ def check(x):
                     x.require(r in shown, "descriptor-missing", detail="poll #%d (seq %d) not shown %s, eligible since seq %d"
                               % (b["k"], b["seq"], r, s))
         for r in shown:
-            if r in first_resolution and first_resolution[r] < b["seq"]:
+            if r in first_resolution and first_resolution[r] < window_open:
                 x.require(False, "stale-descriptor", detail="poll #%d shown %s, resolved at seq %d < %d"
                           % (b["k"], r, first_resolution[r], b["seq"]))
             x.require(r in resolved_ok or any(q["kind"] == "base.end" and q["out"] == ("ok", r) and q["seq"] < b["seq"] for q in log),
